@@ -485,9 +485,11 @@ func checkStore(c *Case) (string, string) {
 	if ok, why := sameStore(y, dedup, false); !ok {
 		return "store/roundtrip", fmt.Sprintf("entity map encodes to %s, decodes differently: %s", b, why)
 	}
-	b2, err := json.Marshal(y)
-	if err != nil || !bytes.Equal(b, b2) {
-		return "store/stable", fmt.Sprintf("second encoding differs: %s then %s", b, b2)
+	for rep := 0; rep < 4; rep++ { // (several times: an order taken from map iteration differs only now and then)
+		b2, err := json.Marshal(y)
+		if err != nil || !bytes.Equal(b, b2) {
+			return "store/stable", fmt.Sprintf("second encoding differs: %s then %s", b, b2)
+		}
 	}
 	e := &emitter{seq: c.Seq}
 	doc := e.store(c.Store, c.Omit, e.value)
